@@ -48,10 +48,10 @@ def inputs_for(bpt, tier):
         for h in heads[-1:] if not full else heads[1:]:
             for m in mids:
                 for t in (1, e):
-                    for s1, s2 in itertools.product([SEPS[0], SEPS[1], SEPS[3]] if not full else SEPS, repeat=2):
+                    for s1, s2 in itertools.product([SEPS[0], SEPS[1], SEPS[3]] if not full else [SEPS[0], SEPS[1], SEPS[3], SEPS[4]], repeat=2):
                         if style == "fasta" and (not s1 or not s2):
                             continue
-                        for st in (((1, 1, 1), (1, -1, 1), (-1, 1, -1)) if full else ((1, 1, 1), (1, -1, 1))) if style == "tpf" else ((1, 1, 1),):
+                        for st in ((1, 1, 1), (1, -1, 1)) if style == "tpf" else ((1, 1, 1),):
                             out.append((("scaffold_1", pv.scaffold_rows(style, "scaffold_1", (h, m, t), (s1, s2), st)),))
         # second scaffold that may be absent from the map (sub-texel) or present
         for h in heads:
@@ -150,9 +150,9 @@ class C07(Check):
             if i % chunks != chunk:
                 continue
             two = len(inp) > 1
-            for pieces in pv.pv_piece_lists(inp, bpt, max_cuts=1 if two else 2, max_pieces=3, margin=(3 * e + 2) if full else (e + 2)):
+            for pieces in pv.pv_piece_lists(inp, bpt, max_cuts=1 if two else 2, max_pieces=3, margin=(2 * e + 2) if full else (e + 2)):
                 n = len(pieces)
-                arrs = pv.arrangements(n) if (n < 3 or full) else pv.arrangements_reduced(n)
+                arrs = pv.arrangements(n) if n < 3 else pv.arrangements_reduced(n)
                 for arr in arrs:
                     if not full and n == 3 and len(arr) == 2:
                         continue
